@@ -6,7 +6,7 @@
    document that the tree as pinned violates the property (findings D6, D7).
    Residue (trusted, not proved): sync.Mutex gives mutual exclusion; the interleaving granularity is
    the underlying store's Get/Put/Del calls. *)
-From Dht Require Import Base Bep44 Bep44Proofs Bep44SchedProofs Sha1.
+From Dht Require Import Base Bep44 Bep44Fault Bep44Proofs Bep44SchedProofs Bep44FaultProofs Sha1.
 From DhtGen Require Import Params.
 Local Open Scope Z_scope.
 
@@ -92,6 +92,68 @@ Section C13.
     exists i, store_get t s = Some i /\ now < it_created i + exp /\
               match sq with Some n => n < it_seq i | None => True end.
   Proof. exact (handle_get_seq sha1 ed_verify exp now t sq s). Qed.
+
+  (* ---- a failing underlying Store (bep44.Store is an interface: any of the s.Get / s.Put / s.Del calls
+          made by one wrapper operation may return an error other than ErrItemNotFound, [faults]) ----
+     A put hit by faults either behaves exactly like the put over a healthy store or returns the
+     store's error (never "accepted") and leaves the store unchanged; in particular a failing read
+     never lets a put through unchecked. *)
+  Theorem C13_faulty_store_put v f now i s :
+    (wrapper_put_f sha1 ed_verify v f now i s = wrapper_put v now i s \/
+     (wrapper_put_f sha1 ed_verify v f now i s = (POther, s) /\ (f_get f = true \/ f_put f = true))) /\
+    (f_get f = true \/ f_put f = true ->
+       fst (wrapper_put_f sha1 ed_verify v f now i s) <> POk /\ snd (wrapper_put_f sha1 ed_verify v f now i s) = s) /\
+    (forall s', wrapper_put_f sha1 ed_verify v f now i s = (POk, s') ->
+       f_get f = false /\ f_put f = false /\ wrapper_put v now i s = (POk, s')).
+  Proof.
+    split; [exact (wrapper_put_f_dichotomy sha1 ed_verify v f now i s)|]. split.
+    - intros [F|F]; [exact (let '(conj a (conj b _)) := wrapper_put_f_get_fault sha1 ed_verify v f now i s F in conj a b)|
+                     exact (wrapper_put_f_put_fault sha1 ed_verify v f now i s F)].
+    - exact (wrapper_put_f_ok_inv sha1 ed_verify v f now i s).
+  Qed.
+
+  (* a lower seq (or the same seq with another value) is never accepted, whatever fails *)
+  Theorem C13_faulty_store_lower_rejected f now i s st :
+    check i = None -> store_get (target i) s = Some st ->
+    it_seq i < it_seq st \/ (it_seq i = it_seq st /\ it_bv i <> it_bv st) ->
+    fst (wrapper_put_f sha1 ed_verify Repaired f now i s) <> POk /\
+    snd (wrapper_put_f sha1 ed_verify Repaired f now i s) = s.
+  Proof. exact (wrapper_put_f_lower_rejected sha1 ed_verify f now i s st). Qed.
+
+  (* wire put and Server.Put: an error reply (no "ok") / no query, store unchanged *)
+  Theorem C13_faulty_store_wire v f now a p s :
+    f_get f = true \/ f_put f = true ->
+    ((exists c, fst (handle_put_f sha1 ed_verify v f now a s) = SError c) /\
+     snd (handle_put_f sha1 ed_verify v f now a s) = s) /\
+    ((exists r, r <> POk /\ fst (server_put_local_f sha1 ed_verify v f now p s) = LErr r) /\
+     snd (server_put_local_f sha1 ed_verify v f now p s) = s).
+  Proof.
+    intros F. exact (conj (handle_put_f_fault sha1 ed_verify v f now a s F)
+                          (server_put_local_f_fault sha1 ed_verify v f now p s F)).
+  Qed.
+
+  (* the step theorem for every operation (API put/get, wire put/get, Server.Put) under every choice of
+     failing store calls, and over every history mixing healthy and faulty operations *)
+  Theorem C13_monotone_step_faulty v exp st e t a :
+    seq_of t (s_store st) = Some a ->
+    (exists b, seq_of t (s_store (fst (fseq_step sha1 ed_verify v exp st e))) = Some b /\ a <= b) \/
+    (seq_of t (s_store (fst (fseq_step sha1 ed_verify v exp st e))) = None /\
+     (exists f, e = FGet f t \/ exists sq, e = FWireGet f t sq) /\
+     exists i, store_get t (s_store st) = Some i /\ it_created i + exp <= s_clock st).
+  Proof. exact (fseq_step_mono sha1 ed_verify v exp st e t a). Qed.
+
+  Theorem C13_monotone_seq_faulty v exp t evs st a :
+    seq_of t (s_store st) = Some a -> mixed_alive sha1 ed_verify v exp t evs st ->
+    exists b, seq_of t (s_store (mixed_run sha1 ed_verify v exp evs st)) = Some b /\ a <= b.
+  Proof. exact (mixed_run_monotone sha1 ed_verify v exp t evs st a). Qed.
+
+  (* a get over a failing store still sends a value only for the stored, unexpired, newer item *)
+  Theorem C13_get_seq_faulty f exp now t sq s g s' bv k sg :
+    handle_get_f f exp now t sq s = (FGReply g, s') -> gr_val g = Some (bv, k, sg) ->
+    exists i, store_get t s = Some i /\ now < it_created i + exp /\
+              bv = it_bv i /\ k = it_k i /\ sg = it_sig i /\ gr_seq g = Some (it_seq i) /\
+              match sq with Some n => n < it_seq i | None => True end.
+  Proof. exact (handle_get_f_value f exp now t sq s g s' bv k sg). Qed.
 
   (* ---- concurrency: any number of threads, each a Wrapper.Put or Wrapper.Get with its own clock
           reading; every schedule at store-call granularity ---- *)
@@ -205,6 +267,27 @@ Example C13_nonvacuous_history :
   quiet_run sha1 ver_all Repaired 1000 wt 1000 [EPut i1; EAdvance 5; EGet wt] (run [EPut i2]).
 Proof. vm_compute. repeat split; discriminate. Qed.
 
+(* a failing read while a stale put (seq 3 over stored seq 5) arrives: refused, nothing changes; the
+   same history over the healthy store is a 302; a failing write refuses a valid update *)
+Example C13_nonvacuous_faulty :
+  let i5 := witem [x69; x35; x65] 0 5 in
+  let i3 := witem [x69; x33; x65] 0 3 in
+  let i6 := witem [x69; x36; x65] 0 6 in
+  let s5 := snd (wrapper_put sha1 ver_all Repaired 0 i5 []) in
+  let st := mkSState 7 s5 in
+  seq_of wt s5 = Some 5 /\
+  fseq_step sha1 ver_all Repaired 1000 st (FPut (mkFaults true false false) i3) = (st, FOPut POther) /\
+  fseq_step sha1 ver_all Repaired 1000 st (FPut no_faults i3) = (st, FOPut (PErr 302)) /\
+  fseq_step sha1 ver_all Repaired 1000 st (FPut (mkFaults false true false) i6) = (st, FOPut POther) /\
+  fseq_step sha1 ver_all Repaired 1000 st (FWirePut (mkFaults true false false)
+     (mkPutArgs [x69; x33; x65] wk [] wsig 0 (Some 3))) = (st, FOWirePut (SError 204)) /\
+  fseq_step sha1 ver_all Repaired 1000 st (FWireGet (mkFaults true false false) wt None) = (st, FOWireGet (FGError 201)) /\
+  fseq_step sha1 ver_all Repaired 1000 (mkSState 2000 s5) (FGet (mkFaults false false true) wt) = (mkSState 2000 s5, FOGet FGOther) /\
+  seq_of wt (s_store (fst (fseq_step sha1 ver_all Repaired 1000 st (FPut no_faults i6)))) = Some 6 /\
+  mixed_alive sha1 ver_all Repaired 1000 wt
+    [inr (FPut (mkFaults true false false) i3); inl (EPut i6); inr (FGet (mkFaults true false true) wt)] st.
+Proof. vm_compute. repeat split; discriminate. Qed.
+
 (* a complete locked run of two puts and a get; all threads finish *)
 Example C13_nonvacuous_sched :
   let ths := [mkThread (TPut (witem [x69; x35; x65] 0 5)) 10; mkThread (TPut (witem [x69; x33; x65] 0 3)) 10;
@@ -229,6 +312,12 @@ Print Assumptions C13_monotone_seq.
 Print Assumptions C13_accepted_is_served.
 Print Assumptions C13_expiry.
 Print Assumptions C13_get_seq.
+Print Assumptions C13_faulty_store_put.
+Print Assumptions C13_faulty_store_lower_rejected.
+Print Assumptions C13_faulty_store_wire.
+Print Assumptions C13_monotone_step_faulty.
+Print Assumptions C13_monotone_seq_faulty.
+Print Assumptions C13_get_seq_faulty.
 Print Assumptions C13_mutual_exclusion.
 Print Assumptions C13_monotone_sched_step.
 Print Assumptions C13_monotone_sched.
